@@ -497,14 +497,14 @@ fn subs() -> Vec<Box<dyn DynSub>> {
             strategy: setpw_case,
             cases: (16, 400),
             check: check_setpw,
-            max_shrink_iters: 40,
+            max_shrink_iters: 24,
         }),
         Box::new(Sub {
             name: "write_with_password",
             strategy: wb_case,
             cases: (8, 150),
             check: check_wb,
-            max_shrink_iters: 40,
+            max_shrink_iters: 24,
         }),
     ]
 }
